@@ -14,6 +14,7 @@ from synkit.Graph.ITS.its_decompose import get_rc
 from pyvc import chem
 
 logging.disable(logging.CRITICAL)
+K_PAIR = "synkit/Chem/Reaction/canon_rsmi.py::CanonRSMI.get_aam_pairwise_indices"
 
 
 def its_of(rsmi):
@@ -98,6 +99,11 @@ def check_reaction(tw, rsmi, fails, rng, tags, canons, std):
             return 0          # the library cannot read this reaction (sanitisation): outside the property's domain
     except Exception:
         return 0
+    # the pairing step under proof, on the real graphs of this reaction
+    if K_PAIR in tw.functions:
+        out, v = tw.check_call(K_PAIR, CanonRSMI.get_aam_pairwise_indices, dict(G=G0, H=H0, aam_key="atom_map"))
+        if v:
+            fails.append({"function": "CanonRSMI.get_aam_pairwise_indices", "violations": v, "rsmi": rsmi, "tags": tags})
     # --- canonical atom maps ---
     try:
         unm = std.fit(rsmi)
